@@ -1229,12 +1229,33 @@ func bucket(r int32) string {
 	return "9-12"
 }
 
+var shrunk = map[string]bool{}
+
 func c17Case(env *core.Env, idx int) *core.CaseResult {
 	rng := env.RNG(idx)
 	res := &core.CaseResult{}
 	cfg, acts := genHistory(rng)
+	// dev-only knob: replay a hand-written history {"init":{...},"actions":[{...}]} as every case (use with --case 0)
+	if f := os.Getenv("C17_HISTORY"); f != "" {
+		var h struct {
+			Init    *initCfg `json:"init"`
+			Actions []action `json:"actions"`
+		}
+		b, err := os.ReadFile(f)
+		if err == nil {
+			err = json.Unmarshal(b, &h)
+		}
+		if err != nil || h.Init == nil {
+			res.Inconclusive = "C17_HISTORY unreadable: " + fmt.Sprint(err)
+			return res
+		}
+		cfg, acts = h.Init, h.Actions
+	}
 	st := newStats(true)
 	w := run(cfg, acts, st)
+	if f := os.Getenv("C17_HISTORY"); f != "" {
+		_ = os.WriteFile(f+".trace", []byte(strings.Join(w.trace, "\n")+"\n"), 0o644)
+	}
 	res.Count("histories", 1)
 	for k, v := range st.counters {
 		res.Count(k, v)
@@ -1252,9 +1273,14 @@ func c17Case(env *core.Env, idx int) *core.CaseResult {
 		res.AddSig(fmt.Sprintf("R=%s:p=%s:s=%s:u=%s:old=%d:c=%s", bucket(cfg.Replicas), kindOf(&cfg.Partition), kindOf(cfg.MaxSurge), kindOf(cfg.MaxUnavailable), len(cfg.Olds), strings.Join(cl, "+")))
 	}
 	res.AddSet("partition_kinds", kindOf(&cfg.Partition))
-	for i, v := range w.viols {
+	if len(w.viols) > 0 {
+		res.Count("histories_with_violation", 1)
+	}
+	for _, v := range w.viols {
 		detail := gen.NF{"init": cfg, "actions": actStrings(acts), "trace": w.trace}
-		if i < 2 {
+		// minimise only the first occurrence of a fingerprint in this worker process (the parent keeps one per fingerprint)
+		if !shrunk[v.FP] {
+			shrunk[v.FP] = true
 			mc, ma := shrink(cfg, acts, v)
 			mw := run(mc, ma, newStats(false))
 			msg := v.Msg
